@@ -374,6 +374,10 @@ int main(int argc, char **argv)
                                         if (guard_mode) guard_free(buf); else free(buf);
                                         /* clear error as a well-behaved caller may; keeps later monitors exact */
                                 } else {
+                                        /* C11: an accepted submit reports no error on the context it was given
+                                           (a code left over from an earlier rejected call would make this valid
+                                           call look failed to the caller and to the isal_* wrapper) */
+                                        if ((int) FLD32(h->obj, A->off_error) != 0) monitor("C11-accepted-submit-left-error-set", c);
                                         if (h->outstanding) monitor("C06-internal-harness-state", c);
                                         h->outstanding = 1;
                                         if (flags & 1) { h->msglen = 0; h->sum_len = 0; h->too_big = 0; }
